@@ -197,11 +197,14 @@ NextInRange(ev) ==
 \* the checks ---------------------------------------------------------------------
 Claimable(st, i, d) == IF i \in PosIds(st) THEN PosOf(st, i).fee[d] ELSE B!Zero
 
+\* one unit of rounding in the amount that reaches the curve carries f/(1-f) units of spread reward: the per-event
+\* allowance is counted in units of 1 + floor(f/(1-f)) (one for every spread factor below one half, 20 for 0.95)
+FeeMult == B!Add(B!One, B!FloorDiv(conf.f, B!Sub(B!Pow(B!OfInt(10), 18), conf.f)))
 FeeBoundsOK(st, e, p, n, dd, rd) ==
     \A i \in DOMAIN e : \A d \in 1..2 :
         LET c  == RInt(B!Add(Claimable(st, i, d), p[i][d]))
             ee == e[i][d]
-            k  == RInt(B!OfInt(2 * n[i] + 2))
+            k  == RInt(B!Mul(B!OfInt(2 * n[i] + 2), FeeMult))
             ok == /\ ((RIsZero(ee) /\ RIsZero(rd[i])) => RIsZero(c))                    \* never earned (nor re-credited claim dust) => nothing
                   /\ RLe(c, RAdd(RAdd(RAdd(RMul(ee, RAdd(ROne, Eps)), dd[i]), k), rd[i]))   \* never more than earned
                   /\ RLe(RSub(RSub(RMul(ee, RSub(ROne, Eps)), dd[i]), k), c)            \* short only by dust
